@@ -220,6 +220,8 @@ def run(run: C.Run):
             else:
                 run.violation({"property": "C16", "kind": "label->value mapping differs from the sorted result", "case": case,
                                "flox": impl_res, "mismatches": bad[:5], "how_to_run": "./check C16 --replay <this file>"}, tag="oracle")
+    from tools.lib import fuzz as Z
+    Z.run_stream(run, rng, 1500 if run.tier == "thorough" else 150, "C16", funcs=["sum", "nanmax", "count", "nanfirst", "mean", "min"])
     if not proofs_ok and not run.violations:
         run.violation({"property": "C16", "kind": "proof obligation no longer checks", "failed": P.failed_obligations(run)},
                       nofail=True, tag="obligation")
